@@ -16,7 +16,7 @@ from .c10 import kinds, size
 
 ID = "C11"
 RULE = (
-    "Generate an expression tree (raw constructors, depth <=4 over A..D, all node kinds of C10) and an ordering. "
+    "Generate an expression tree (raw constructors, depth <=4 over A..D or, a third of the time, over four names on which string / numeric / case-folded orderings disagree; all node kinds of C10) and an ordering. "
     "(1) idempotence: canonicalize(canonicalize(e,o),o) == canonicalize(e,o) as objects and as text. (2) presentation "
     "invariance: for drawn presentation permutations pi (shuffle factors, re-nest/flatten products, shuffle children and "
     "parents of every distribution and the subscripts) canonicalize(pi(e),o) == canonicalize(e,o) as objects and text. "
@@ -36,12 +36,24 @@ BUDGET = {
 ESSENTIAL_LABELS = {t: ["tie:same-first-child", "factors>=3", "has:frac", "mixed-P-PP", "compound-fraction-that-cancels"] for t in ("quick", "thorough")}
 
 
+# variable names on which the usual ways of ordering names disagree (string order, numeric order of digit runs, case
+# folding, length, non-ASCII letters)
+NAME_VARIANTS = ["X2", "X10", "X1", "X02", "V9", "V10", "a", "Z", "b", "B", "B1", "AA", "A_1", "A1", "β", "Ab", "aB", "_c"]
+
+
+@st.composite
+def _names(draw):
+    if draw(st.integers(0, 2)) > 0:
+        return None
+    return list(draw(st.permutations(NAME_VARIANTS)))[: len(DEFAULT_NAMES)]
+
+
 @st.composite
 def _case(draw):
     depth = draw(st.sampled_from([1, 2, 2, 3, 3, 4]))
     spec = draw(exprgen.expr_specs(depth=depth, zero=draw(st.integers(0, 3)) == 0, mixed_worlds=True))
     order = draw(st.one_of(st.none(), st.permutations(DEFAULT_NAMES).map(list)))
-    return {"spec": spec, "order": order, "perm": draw(st.integers(0, 2**32))}
+    return {"spec": spec, "order": order, "perm": draw(st.integers(0, 2**32)), "names": draw(_names())}
 
 
 @st.composite
@@ -70,7 +82,7 @@ def _cancelling_case(draw):
     elif wrap == 2:
         spec = {"t": "prod", "xs": [spec, draw(small())]}
     order = draw(st.one_of(st.none(), st.permutations(DEFAULT_NAMES).map(list)))
-    return {"spec": spec, "order": order, "perm": draw(st.integers(0, 2**32)), "cancelling": True}
+    return {"spec": spec, "order": order, "perm": draw(st.integers(0, 2**32)), "cancelling": True, "names": draw(_names())}
 
 
 def strategy(tier):
@@ -100,8 +112,14 @@ def check(case) -> Outcome:
     from y0.mutate.canonicalize_expr import canonicalize
 
     spec = case["spec"]
+    if case.get("names"):
+        vmap = dict(zip(DEFAULT_NAMES, case["names"]))
+        spec = exprgen.rename_spec(spec, vmap, {})
+        case = {**case, "order": None if case["order"] is None else [vmap.get(n, n) for n in case["order"]], "variants": [exprgen.rename_spec(v, vmap, {}) for v in case.get("variants", [])]}
     out = Outcome(key=str(spec) + str(case["order"]))
     labels = {"has:" + k for k in kinds(spec)}
+    if case.get("names"):
+        labels.add("names-on-which-orderings-disagree")
     _first_children(spec, labels)
     if case.get("cancelling"):
         labels.add("compound-fraction-that-cancels")
